@@ -2,8 +2,12 @@ import EaselModel.Buffer.SimLines
 /-! Anchor preservation and returned pointer of the token functions; their simulation. -/
 namespace EaselModel.Buffer
 
-theorem fetchToken_keep (b : Buf) (sep : Bytes) (asStr : Bool) (h : WF b) (ha : AnchOK b) (hnf : NoFpNoAnchor b) :
-    KeepA b (fetchToken b sep asStr).2 ∧ AnchOK (fetchToken b sep asStr).2 := by
+/-- what the token calls do to the anchor record: with status `eslOK` the bracket at the token start (an anchor ahead
+    of it is dropped), otherwise nothing -/
+theorem fetchToken_keepX (b : Buf) (sep : Bytes) (asStr : Bool) (h : WF b) (ha : AnchOK b) (hnf : NoFpNoAnchor b) :
+    ((fetchToken b sep asStr).1.st = .ok →
+      KeepX (brkAt b.absAnchor (b.base + b.pos + runLen (isSep sep) b.abs.suffix)) b (fetchToken b sep asStr).2) ∧
+    ((fetchToken b sep asStr).1.st ≠ .ok → KeepA b (fetchToken b sep asStr).2) ∧ AnchOK (fetchToken b sep asStr).2 := by
   obtain ⟨w1, k1, hs1, o1, hsuf1, c1⟩ := token_prefix b sep h
   generalize hk : runLen (isSep sep) b.abs.suffix = k at *
   generalize hs1d : b.abs.suffix.drop k = s1 at *
@@ -15,7 +19,7 @@ theorem fetchToken_keep (b : Buf) (sep : Bytes) (asStr : Bool) (h : WF b) (ha : 
     subst cst
     have e : fetchToken b sep asStr = ({ st := .eof }, b1) := by unfold fetchToken; simp only [hsk]
     rw [e]
-    exact ⟨k1.toKeepA, ha.keep k1⟩
+    exact ⟨(fun hh => by cases hh), (fun _ => k1.toKeepA), ha.keep k1⟩
   · subst cst
     obtain ⟨w2, k2, pg2, st2e, o2, lt2⟩ := newline_spec b1 w1 clt
     rw [hsuf1] at st2e o2 lt2
@@ -51,8 +55,11 @@ theorem fetchToken_keep (b : Buf) (sep : Bytes) (asStr : Bool) (h : WF b) (ha : 
       have hwl4 := win_length b4
       have w5a := advance_wf' t2 nc (by omega)
       obtain ⟨r5a, w5⟩ := raiseAnchor_spec { b4 with pos := b4.pos + nc } (b2.base + b2.pos) w5a
-      have hbr := bracket b2 { b4 with pos := b4.pos + nc } w2 (ha.keep (k1.trans k2)) (hnf.keep (k1.trans k2))
+      have hbr := bracketX b2 { b4 with pos := b4.pos + nc } w2 (ha.keep (k1.trans k2)) (hnf.keep (k1.trans k2))
         (by rw [hsa]; exact t4.trans (setpos_keep b4 _))
+      have hbk : b2.brkAnchor = brkAt b.absAnchor (b.base + b.pos + k) := by
+        rw [brkAnchor_eq_brkAt, (k1.trans k2).anch, o2, o1]
+      rw [hbk] at hbr
       generalize hb5 : raiseAnchor { b4 with pos := b4.pos + nc } (b2.base + b2.pos) = b5 at *
       obtain ⟨q1, q2, q3, q4, q5⟩ := r5a.same
       obtain ⟨w6, k6, o6, c6⟩ := skipsep_spec b5 sep w5
@@ -78,16 +85,20 @@ theorem fetchToken_keep (b : Buf) (sep : Bytes) (asStr : Bool) (h : WF b) (ha : 
       rw [e]
       have k67 := refill_keep b6 0 w6
       rw [hrf] at k67
-      exact ⟨((k1.trans k2).toKeepA.trans hbr.1).trans (k6.trans k67).toKeepA, hbr.2.keep (k6.trans k67)⟩
+      exact ⟨(fun _ => ((k1.trans k2).toKeepA.transX hbr.1
+          (fun hne => fun hb => brkAt_ne_none hne ((absAnchor_eq_none b).mpr hb))).transA (k6.trans k67).toKeepA),
+        (fun hh => absurd rfl hh), hbr.2.keep (k6.trans k67)⟩
     · -- a newline
       have hst2 : st2 = .eol := by rw [st2e]; simp [hn]
       subst hst2
       have e : fetchToken b sep asStr = ({ st := .eol }, b2) := by unfold fetchToken; simp only [hsk, hnl]
       rw [e]
-      exact ⟨(k1.trans k2).toKeepA, ha.keep (k1.trans k2)⟩
+      exact ⟨(fun hh => by cases hh), (fun _ => (k1.trans k2).toKeepA), ha.keep (k1.trans k2)⟩
 
-theorem getToken_keep_p (b : Buf) (sep : Bytes) (h : WF b) (ha : AnchOK b) (hnf : NoFpNoAnchor b) :
-    KeepA b (getToken b sep).2 ∧ AnchOK (getToken b sep).2 ∧
+theorem getToken_keep_pX (b : Buf) (sep : Bytes) (h : WF b) (ha : AnchOK b) (hnf : NoFpNoAnchor b) :
+    ((getToken b sep).1.st = .ok →
+      KeepX (brkAt b.absAnchor (b.base + b.pos + runLen (isSep sep) b.abs.suffix)) b (getToken b sep).2) ∧
+    ((getToken b sep).1.st ≠ .ok → KeepA b (getToken b sep).2) ∧ AnchOK (getToken b sep).2 ∧
     ((getToken b sep).1.st = .ok → ∃ i, (getToken b sep).1.p = some i ∧
         (getToken b sep).2.base + i = b.base + b.pos + runLen (isSep sep) b.abs.suffix) ∧
     ((getToken b sep).1.st ≠ .ok → (getToken b sep).1.p = none) := by
@@ -102,7 +113,7 @@ theorem getToken_keep_p (b : Buf) (sep : Bytes) (h : WF b) (ha : AnchOK b) (hnf 
     subst cst
     have e : getToken b sep = ({ st := .eof }, b1) := by unfold getToken; simp only [hsk]
     rw [e]
-    exact ⟨k1.toKeepA, ha.keep k1, (fun hh => by cases hh), (fun _ => rfl)⟩
+    exact ⟨(fun hh => by cases hh), (fun _ => k1.toKeepA), ha.keep k1, (fun hh => by cases hh), (fun _ => rfl)⟩
   · subst cst
     obtain ⟨w2, k2, pg2, st2e, o2, lt2⟩ := newline_spec b1 w1 clt
     rw [hsuf1] at st2e o2 lt2
@@ -177,10 +188,15 @@ theorem getToken_keep_p (b : Buf) (sep : Bytes) (h : WF b) (ha : AnchOK b) (hnf 
         unfold getToken
         simp only [hsk, hnl, hsa, hct, hb5, hsk6, hst6, hrf, hst7, Bool.not_true, Bool.false_eq_true, if_false, hbase7, hsl']
       rw [e]
-      have hbr := bracket b2 b7 w2 (ha.keep (k1.trans k2)) (hnf.keep (k1.trans k2))
+      have hbr := bracketX b2 b7 w2 (ha.keep (k1.trans k2)) (hnf.keep (k1.trans k2))
         (by rw [hsa]; exact ((t4.trans k45).trans k6).trans k67)
+      have hbk : b2.brkAnchor = brkAt b.absAnchor (b.base + b.pos + k) := by
+        rw [brkAnchor_eq_brkAt, (k1.trans k2).anch, o2, o1]
+      rw [hbk] at hbr
       obtain ⟨z1, z2, z3, z4, z5⟩ := r8a.same
-      refine ⟨(k1.trans k2).toKeepA.trans hbr.1, hbr.2, (fun _ => ⟨b2.base + b2.pos - b7.base, rfl, ?_⟩), (fun hh => absurd rfl hh)⟩
+      refine ⟨(fun _ => (k1.trans k2).toKeepA.transX hbr.1
+          (fun hne => fun hb => brkAt_ne_none hne ((absAnchor_eq_none b).mpr hb))), (fun hh => absurd rfl hh), hbr.2,
+        (fun _ => ⟨b2.base + b2.pos - b7.base, rfl, ?_⟩), (fun hh => absurd rfl hh)⟩
       show (raiseAnchor b7 (b2.base + b2.pos)).base + (b2.base + b2.pos - b7.base) = _
       have := hprot7.1
       rw [z3]; omega
@@ -189,7 +205,7 @@ theorem getToken_keep_p (b : Buf) (sep : Bytes) (h : WF b) (ha : AnchOK b) (hnf 
       subst hst2
       have e : getToken b sep = ({ st := .eol }, b2) := by unfold getToken; simp only [hsk, hnl]
       rw [e]
-      exact ⟨(k1.trans k2).toKeepA, ha.keep (k1.trans k2), (fun hh => by cases hh), (fun _ => rfl)⟩
+      exact ⟨(fun hh => by cases hh), (fun _ => (k1.trans k2).toKeepA), ha.keep (k1.trans k2), (fun hh => by cases hh), (fun _ => rfl)⟩
 
 theorem getElem?_some_lt {l : Bytes} {i : Nat} {c : UInt8} (h : l[i]? = some c) : i < l.length := by
   rcases Nat.lt_or_ge i l.length with h1 | h1
@@ -241,17 +257,49 @@ theorem specToken_cur (a : Abs) (sep : Bytes) :
   rw [e1, e2, e3]
   exact ⟨Nat.le_add_right _ _, rfl, fun hh => by have := hu.2 hh; omega⟩
 
+theorem aBrk_anchor (a : AState) (t : Nat) : (aBrk a t).anchor = brkAt a.anchor t := by
+  unfold aBrk brkAt
+  cases ha : a.anchor with
+  | none => simp only []; exact ha
+  | some A => simp only []; split
+              · exact ha
+              · rfl
+
+/-- the anchor effect of a token call (`ok` = the call returned a token starting at offset `t`), packaged for `sim_of_refinesX` -/
+theorem R.tok_anchor {P : Nat} {a : AState} {s : Sess} (r : R P a s) (ok : Prop) [Decidable ok] (t : Nat) {b' : Buf}
+    (k1 : ok → KeepX (brkAt s.b.absAnchor t) s.b b') (k2 : ¬ ok → KeepA s.b b') :
+    KeepX (if ok then brkAt s.b.absAnchor t else s.b.absAnchor) s.b b' ∧
+    (s.b.hasfp = true → (if ok then brkAt s.b.absAnchor t else s.b.absAnchor) = (if ok then aBrk a t else a).anchor) ∧
+    (s.b.hasfp = false → (if ok then brkAt s.b.absAnchor t else s.b.absAnchor) = none) ∧
+    (if ok then aBrk a t else a).src = a.src ∧
+    (∀ A, (if ok then aBrk a t else a).anchor = some A → a.anchor = some A) ∧
+    ((if ok then aBrk a t else a).anchor ≠ none → (if ok then aBrk a t else a).nanchor = a.nanchor) := by
+  have hn : s.b.hasfp = false → s.b.absAnchor = none := fun hf => (absAnchor_eq_none s.b).mpr (r.nfa hf)
+  by_cases h : ok
+  · have e1 : (if ok then brkAt s.b.absAnchor t else s.b.absAnchor) = brkAt s.b.absAnchor t := if_pos h
+    have e2 : (if ok then aBrk a t else a) = aBrk a t := if_pos h
+    rw [e1, e2]
+    refine ⟨k1 h, (fun hf => by rw [(r.anch hf).1, aBrk_anchor]), (fun hf => by rw [hn hf]; rfl), aBrk_src a t,
+      (fun A hA => (aBrk_sub a t A hA).1), aBrk_nanchor a t⟩
+  · have e1 : (if ok then brkAt s.b.absAnchor t else s.b.absAnchor) = s.b.absAnchor := if_neg h
+    have e2 : (if ok then aBrk a t else a) = a := if_neg h
+    rw [e1, e2]
+    exact ⟨(k2 h).toKeepX, (fun hf => (r.anch hf).1), hn, rfl, (fun _ hA => hA), (fun _ => rfl)⟩
+
 theorem sim_getToken (P : Nat) (sep : Bytes) : SimStep P (.getToken sep) := by
   intro a s r _
   obtain ⟨w, e, _, pg⟩ := getToken_refines s.b sep r.wf
   rw [r.abs_eq] at e
-  obtain ⟨k, ok, p1, p2⟩ := getToken_keep_p s.b sep r.wf r.aok r.nfa
-  rw [r.abs_eq] at p1
+  obtain ⟨kx, ka, ok, p1, p2⟩ := getToken_keep_pX s.b sep r.wf r.aok r.nfa
+  rw [r.abs_eq] at p1 kx
+  rw [r.cur] at kx
   have hc := specToken_cur a.abs sep
   have e1 : (getToken s.b sep).1.st = (specToken a.abs sep).1 := congrArg Prod.fst e
-  refine sim_of_refines (s' := (s.step (.getToken sep)).2) (o := (getToken s.b sep).1) (spec := specToken a.abs sep)
+  rw [e1] at kx ka
+  obtain ⟨t1, t2, t3, t4, t5, t6⟩ := r.tok_anchor ((specToken a.abs sep).1 = .ok) (a.cur + runLen (isSep sep) a.abs.suffix) kx ka
+  refine sim_of_refinesX (s' := (s.step (.getToken sep)).2) (o := (getToken s.b sep).1) (spec := specToken a.abs sep)
     (lp := if (specToken a.abs sep).1 = .ok then some (a.cur + runLen (isSep sep) a.abs.suffix) else none)
-    r w pg k ok e ⟨hc.1, hc.2.1⟩ ?_ ?_
+    r w pg t1 ok t2 t3 t4 t5 t6 e ⟨hc.1, hc.2.1⟩ ?_ ?_
   · show ((getToken s.b sep).1.p).map ((getToken s.b sep).2.base + ·) = _
     by_cases hok : (specToken a.abs sep).1 = .ok
     · rw [if_pos hok]
@@ -272,17 +320,22 @@ theorem sim_fetchToken_gen (P : Nat) (sep : Bytes) (asStr : Bool) (op : Op)
   intro a s r _
   obtain ⟨w, e, _, pg, _⟩ := fetchToken_refines s.b sep asStr r.wf
   rw [r.abs_eq] at e
-  obtain ⟨k, ok⟩ := fetchToken_keep s.b sep asStr r.wf r.aok r.nfa
+  obtain ⟨kx, ka, ok⟩ := fetchToken_keepX s.b sep asStr r.wf r.aok r.nfa
+  rw [r.abs_eq, r.cur] at kx
+  have e1 : (fetchToken s.b sep asStr).1.st = (specToken a.abs sep).1 := congrArg Prod.fst e
+  rw [e1] at kx ka
+  obtain ⟨t1, t2, t3, t4, t5, t6⟩ := r.tok_anchor ((specToken a.abs sep).1 = .ok) (a.cur + runLen (isSep sep) a.abs.suffix) kx ka
   have hc := specToken_cur a.abs sep
   have hb : (s.step op).2.b = (fetchToken s.b sep asStr).2 := by rw [step_b, hrun]
   have hl : (s.step op).2.lastp = none := by rw [step_lastp, hrun]; exact fetchToken_p s.b sep asStr
   have ho : (s.step op).1 = (fetchToken s.b sep asStr).1 := by rw [step_out, hrun]
   have hne : op ≠ .get := by rcases hop with h | h <;> rw [h] <;> intro hh <;> cases hh
-  have := sim_of_refines (s' := (s.step op).2) (o := (fetchToken s.b sep asStr).1) (spec := specToken a.abs sep) (lp := none)
-    r (by rw [hb]; exact w) (by rw [hb]; exact pg) (by rw [hb]; exact k) (by rw [hb]; exact ok) (by rw [hb]; exact e)
+  have := sim_of_refinesX (s' := (s.step op).2) (o := (fetchToken s.b sep asStr).1) (spec := specToken a.abs sep) (lp := none)
+    r (by rw [hb]; exact w) (by rw [hb]; exact pg) (by rw [hb]; exact t1) (by rw [hb]; exact ok) t2 t3 t4 t5 t6 (by rw [hb]; exact e)
     ⟨hc.1, hc.2.1⟩ (by rw [hl]; rfl) (fun p hp => by cases hp)
   have hspec : specStep a op = (⟨(specToken a.abs sep).1, (specToken a.abs sep).2.1, (specToken a.abs sep).2.2.cur⟩,
-      { a with cur := (specToken a.abs sep).2.2.cur, lastp := none }) := by
+      { (if (specToken a.abs sep).1 = .ok then aBrk a (a.cur + runLen (isSep sep) a.abs.suffix) else a) with
+        cur := (specToken a.abs sep).2.2.cur, lastp := none }) := by
     rcases hop with h | h <;> rw [h] <;> rfl
   rw [hspec]
   refine ⟨?_, this.2⟩
